@@ -119,6 +119,27 @@ def sliced_node(world, c, node):
     source contains c.body_slice['stop_before'], followed by `return <result expression>`"""
     import copy
     sm = world.sources[c.module]
+    if 'start_at' in c.body_slice or 'start_after' in c.body_slice:
+        # suffix extraction: from the first top-level statement whose source contains the marker (start_at), or
+        # from the statement following the LAST one that contains it (start_after), to the end; the locals the
+        # suffix reads become the parameters of the extracted function
+        start = c.body_slice.get('start_at') or c.body_slice['start_after']
+        new = copy.copy(node)
+        idx = None
+        for i, st in enumerate(node.body):
+            if start in sm.segment(st):
+                idx = i
+                if 'start_at' in c.body_slice:
+                    break
+        if idx is not None and 'start_after' in c.body_slice:
+            idx += 1
+        if idx is None:
+            raise Unsupported(f"slice marker {start!r} not found in {c.qualname}")
+        new.body = list(node.body[idx:])
+        new.args = ast.arguments(posonlyargs=[], args=[ast.arg(arg=a) for a in c.body_slice['args']], vararg=None,
+                                 kwonlyargs=[], kw_defaults=[], kwarg=None, defaults=[])
+        ast.fix_missing_locations(new)
+        return new
     stop = c.body_slice['stop_before']
     new = copy.copy(node)
     body = []
